@@ -217,6 +217,31 @@ func (v *Val) hasUnordered() bool {
 	return false
 }
 
+// hasMultiSet: does the value hold a set of two or more elements (then an implementation that
+// compares representations can tell apart two values that are equal as values).
+func (v *Val) hasMultiSet() bool {
+	switch v.K {
+	case KSet:
+		if len(v.Items) > 1 {
+			return true
+		}
+		fallthrough
+	case KList:
+		for _, x := range v.Items {
+			if x.hasMultiSet() {
+				return true
+			}
+		}
+	case KMap:
+		for _, x := range v.M {
+			if x.hasMultiSet() {
+				return true
+			}
+		}
+	}
+	return false
+}
+
 // canon is a canonical text of a value: sets are sorted (duplicates kept), lists keep order.
 func (v *Val) canon() string {
 	if v == nil {
